@@ -53,8 +53,10 @@ MODELS = {
                  proofs=["SnapProof.tla"],
                  witnesses=[], variants=[], no_exempt=[], sim_cfg=None),
     # the service table under racing commands (C05, C06, probe part of C17)
-    "own": dict(module="MC_Own.tla", quick=["MC_Own_quick.cfg"], thorough=["MC_Own_quick.cfg", "MC_Own_thorough.cfg"],
-                controls=[("MC_Own_nonatomic.cfg", "O_Ownership"), ("MC_Own_nodispose.cfg", "O_FailedLeavesNothing")],
+    "own": dict(module="MC_Own.tla", quick=["MC_Own_quick.cfg", "MC_Own_rollout.cfg"],
+                thorough=["MC_Own_quick.cfg", "MC_Own_rollout.cfg", "MC_Own_thorough.cfg"],
+                controls=[("MC_Own_nonatomic.cfg", "O_Ownership"), ("MC_Own_nodispose.cfg", "O_FailedLeavesNothing"),
+                          ("MC_Own_norollcheck.cfg", "O_Ownership")],
                 proofs=["OwnProof.tla"],
                 witnesses=[], variants=[], no_exempt=[], sim_cfg=None),
 }
